@@ -109,7 +109,13 @@ class CallsMixin:
         for cl in self.frame.contract.get('oncall'):
             m = re.match(r'(\w+)\s*:\s*(.*)$', cl.text, re.S)
             if m and m.group(1) == nm and m.group(2).strip() != 'maypanic':
-                self.run_hint(st, SpecEnv(st, binds, st.entry), m.group(2), cl)
+                env = SpecEnv(st, binds, st.entry)
+                env.strict_names = True
+                try:
+                    self.run_hint(st, env, m.group(2), cl)
+                except Unsupported as ex:
+                    if 'unknown name' not in str(ex):
+                        raise          # (a clause about a local that does not exist at this call site does not apply to it)
 
     def call_key(self, st, key, recv, argv, e):
         line = e.get('line')
